@@ -415,7 +415,7 @@ func c14Verdicts(c *core.Ctx) {
 		if res != nil {
 			pins[res] = ssax.AVNonNil
 			for _, cs := range staticCalls(sh, conv) {
-				if ssax.AnyIn(ssax.Backward(cs.Instr.Common().Args[0]), func(v ssa.Value) bool { return v == res }) {
+				if ssax.AnyIn(ssax.Backward(rawArgs(cs.Instr)[0]), func(v ssa.Value) bool { return v == res }) {
 					pins[cs.Instr.Value()] = ssax.AVNonNil
 				}
 			}
